@@ -21,6 +21,22 @@ UNK = object()
 _PROG = [None]
 
 
+def _range_contains(r, x):
+    if isinstance(r, tuple) and r and r[0] == "range-incl":
+        return r[1] <= x <= r[2]
+    if isinstance(r, tuple) and r and r[0] == "range":
+        return r[1] <= x < r[2]
+    raise KeyError
+
+
+# std functions whose value on known scalar arguments is part of the trusted base (their documented meaning)
+STD_VALUES = {
+    "core::ops::range::RangeInclusive::<Idx>::new": lambda a, b: ("range-incl", a, b),
+    "core::ops::range::RangeInclusive::<Idx>::contains": _range_contains,
+    "core::ops::range::Range::<Idx>::contains": _range_contains,
+}
+
+
 def _term_value(t):
     """value of a constant provenance term (promoted constants, const items)"""
     while isinstance(t, tuple) and t and t[0] in ("ref", "deref"):
@@ -120,6 +136,10 @@ def _step_stmt(env, s):
             v = env[p["l"]]
     elif k == "aggr" and rv.get("kind") == "adt" and not rv["ops"]:
         v = ("enum", rv["adt"], rv["variant"])
+    elif k == "aggr" and rv.get("kind") == "adt" and rv.get("adt") in ("core::ops::range::Range", "core::ops::range::RangeInclusive"):
+        ops = [_operand(env, o) for o in rv["ops"]]
+        if len(ops) >= 2 and ops[0] is not UNK and ops[1] is not UNK:
+            v = ("range" if rv["adt"].endswith("::Range") else "range-incl", ops[0], ops[1])
     if v is UNK:
         env.pop(l, None)
     else:
@@ -176,13 +196,16 @@ def walk(fn, start, atoms=None, sinks=(), params=None, stop=(), max_states=20000
                     env[dl] = atoms[bb]
                 else:
                     v = UNK
-                    if call_values:
+                    if True:
                         name = callee_path(t)
-                        fnc = call_values.get(name)
+                        fnc = (call_values.get(name) if call_values else None) or STD_VALUES.get(name)
                         if fnc:
                             args = [_operand(env, a) for a in t["args"]]
                             if all(a is not UNK for a in args):
-                                v = fnc(*args)
+                                try:
+                                    v = fnc(*args)
+                                except (KeyError, TypeError, IndexError):
+                                    v = UNK
                     if v is UNK:
                         env.pop(dl, None)
                     else:
